@@ -5,6 +5,7 @@ package meta
 import (
 	"errors"
 	"fmt"
+	"math"
 	"regexp"
 	"sort"
 	"strconv"
@@ -1274,16 +1275,17 @@ func (r *RangeEntry) CheckValue(v val.Value) error {
 			return errNotExpectedValue
 		}
 	}
-	// 'min' and 'max' stand for the bounds of the type being restricted, those are
-	// enforced by that type so there is nothing to compare here
-	if !r.Min.Empty() && !r.Min.isMin && !r.Min.isMax {
+	// 'min' as the lower and 'max' as the upper bound stand for the bounds of the type being
+	// restricted, those are enforced by that type so there is nothing to compare here. Anywhere
+	// else ("max..max", a part that is just "min") they are the numbers resolveRangeKeywords gave them
+	if !r.Min.Empty() && !r.Min.isMin {
 		if cmp, err := r.Min.Compare(v); err != nil {
 			return err
 		} else if cmp > 0 {
 			return errOutsideRange
 		}
 	}
-	if !r.Max.Empty() && !r.Max.isMax && !r.Max.isMin {
+	if !r.Max.Empty() && !r.Max.isMax {
 		if cmp, err := r.Max.Compare(v); err != nil {
 			return err
 		} else if cmp < 0 {
@@ -1330,40 +1332,130 @@ func (n RangeNumber) String() string {
 	return n.str
 }
 
-func (n RangeNumber) getUnit64() uint64 {
+var errRangeBoundNotNumber = errors.New("range bound is not a number that can be compared")
+
+func (n RangeNumber) getUnit64() (uint64, error) {
 	if n.unsigned != nil {
-		return *n.unsigned
-	}
-	if n.integer != nil && *n.integer >= 0 {
-		return uint64(*n.integer)
-	}
-	if n.float != nil && *n.float >= 0 {
-		return uint64(*n.float)
-	}
-	panic("invalid number range comparison")
-}
-
-func (n RangeNumber) getInt64() int64 {
-	if n.integer != nil {
-		return *n.integer
-	}
-	if n.float != nil {
-		return int64(*n.float)
-	}
-	panic("invalid number range comparison")
-}
-
-func (n RangeNumber) getFloat64() float64 {
-	if n.float != nil {
-		return *n.float
+		return *n.unsigned, nil
 	}
 	if n.integer != nil {
-		return float64(*n.integer)
+		if *n.integer < 0 {
+			return 0, nil // below every unsigned value
+		}
+		return uint64(*n.integer), nil
+	}
+	if n.float != nil {
+		if *n.float < 0 {
+			return 0, nil
+		}
+		return uint64(*n.float), nil
+	}
+	return 0, errRangeBoundNotNumber
+}
+
+func (n RangeNumber) getInt64() (int64, error) {
+	if n.integer != nil {
+		return *n.integer, nil
 	}
 	if n.unsigned != nil {
-		return float64(*n.unsigned)
+		// (an unsigned bound that fits an int64 is parsed as integer) above every int64
+		return math.MaxInt64, nil
 	}
-	panic("invalid number range comparison")
+	if n.float != nil {
+		return int64(*n.float), nil
+	}
+	return 0, errRangeBoundNotNumber
+}
+
+func (n RangeNumber) getFloat64() (float64, error) {
+	if n.float != nil {
+		return *n.float, nil
+	}
+	if n.integer != nil {
+		return float64(*n.integer), nil
+	}
+	if n.unsigned != nil {
+		return float64(*n.unsigned), nil
+	}
+	return 0, errRangeBoundNotNumber
+}
+
+// asFloat orders bounds among themselves, exact enough to tell which of two written bounds is the lower one
+func (n RangeNumber) asFloat() float64 {
+	f, _ := n.getFloat64()
+	return f
+}
+
+// resolveRangeKeywords gives the 'min' and 'max' keywords of a chain of range (or length)
+// statements the numbers they stand for: the bounds of the built-in type in the outermost
+// statement, and in every other one the lowest and highest value that the statement it restricts
+// allows (RFC7950 Sec 9.2.4). levels are ordered from the most derived one to the outermost.
+func resolveRangeKeywords(levels []*Range, lo RangeNumber, hi RangeNumber) {
+	for i := len(levels) - 1; i >= 0; i-- {
+		first := true
+		var nextLo, nextHi RangeNumber
+		for _, e := range levels[i].Entries {
+			for _, n := range []*RangeNumber{&e.Min, &e.Max, &e.Exact} {
+				if n.isMin {
+					n.integer, n.unsigned, n.float = lo.integer, lo.unsigned, lo.float
+				} else if n.isMax {
+					n.integer, n.unsigned, n.float = hi.integer, hi.unsigned, hi.float
+				}
+			}
+			l, h := e.Min, e.Max
+			if !e.Exact.Empty() {
+				l, h = e.Exact, e.Exact
+			}
+			if first || l.asFloat() < nextLo.asFloat() {
+				nextLo = l
+			}
+			if first || h.asFloat() > nextHi.asFloat() {
+				nextHi = h
+			}
+			first = false
+		}
+		if !first {
+			lo, hi = nextLo, nextHi
+		}
+	}
+}
+
+// numberBounds are the lowest and highest value of a numeric built-in type
+func numberBounds(f val.Format, fractionDigits int) (lo RangeNumber, hi RangeNumber, numeric bool) {
+	ints := func(a int64, b int64) (RangeNumber, RangeNumber, bool) {
+		return RangeNumber{str: "min", integer: &a}, RangeNumber{str: "max", integer: &b}, true
+	}
+	uints := func(b uint64) (RangeNumber, RangeNumber, bool) {
+		var zero int64
+		if b <= math.MaxInt64 {
+			i := int64(b)
+			return RangeNumber{str: "min", integer: &zero}, RangeNumber{str: "max", integer: &i}, true
+		}
+		return RangeNumber{str: "min", integer: &zero}, RangeNumber{str: "max", unsigned: &b}, true
+	}
+	switch f.Single() {
+	case val.FmtInt8:
+		return ints(math.MinInt8, math.MaxInt8)
+	case val.FmtInt16:
+		return ints(math.MinInt16, math.MaxInt16)
+	case val.FmtInt32:
+		return ints(math.MinInt32, math.MaxInt32)
+	case val.FmtInt64:
+		return ints(math.MinInt64, math.MaxInt64)
+	case val.FmtUInt8:
+		return uints(math.MaxUint8)
+	case val.FmtUInt16:
+		return uints(math.MaxUint16)
+	case val.FmtUInt32:
+		return uints(math.MaxUint32)
+	case val.FmtUInt64:
+		return uints(math.MaxUint64)
+	case val.FmtDecimal64:
+		b := float64(math.MaxInt64) / math.Pow10(fractionDigits)
+		a := -b
+		return RangeNumber{str: "min", float: &a}, RangeNumber{str: "max", float: &b}, true
+	}
+	return lo, hi, false
 }
 
 func (n RangeNumber) Compare(v val.Value) (int64, error) {
@@ -1388,7 +1480,10 @@ func (n RangeNumber) Compare(v val.Value) (int64, error) {
 	} else {
 		switch v.Format() {
 		case val.FmtDecimal64:
-			a := n.getFloat64()
+			a, err := n.getFloat64()
+			if err != nil {
+				return 0, err
+			}
 			b := v.Value().(float64)
 			if a < b {
 				return -1, nil
@@ -1398,7 +1493,10 @@ func (n RangeNumber) Compare(v val.Value) (int64, error) {
 			}
 			return 0, nil
 		case val.FmtUInt64:
-			a := n.getUnit64()
+			a, err := n.getUnit64()
+			if err != nil {
+				return 0, err
+			}
 			b := v.Value().(uint64)
 			if a < b {
 				return -1, nil
@@ -1409,7 +1507,10 @@ func (n RangeNumber) Compare(v val.Value) (int64, error) {
 			return 0, nil
 		default:
 			if i, ok := v.(val.Int64able); ok {
-				a := n.getInt64()
+				a, err := n.getInt64()
+				if err != nil {
+					return 0, err
+				}
 				b := i.Int64()
 				if a < b {
 					return -1, nil
